@@ -65,8 +65,15 @@ func implParses(c Case01) (names []string, res []parsed) {
 // interfere01 makes an unrelated call on the same default parser just before the calls under test:
 // the same text with a scheme of the other class. A result must not depend on what was parsed before
 // (caches keyed too coarsely, state left behind by a previous call).
+var interferingParsers = []url.Parser{url.NewParser(url.WithLaxHostParsing(), url.WithAcceptInvalidCodepoints(), url.WithPercentEncodeSinglePercentSign())}
+
 func interfere01(c Case01) {
 	in := string(c.Input)
+	// the byte-identical input through a differently configured parser: package-level memos keyed
+	// without the configuration would leak from one parser into another
+	for _, ip := range interferingParsers {
+		_, _ = ip.Parse(in)
+	}
 	sc := gen.SchemeOf(preprocess(in))
 	if sc == "" {
 		_, _ = url.Parse("foo:" + in)
